@@ -2,9 +2,30 @@
 From Coq Require Import Ascii String List Bool Arith ZArith NArith.
 From PTBase Require Import Exn PyStr PyNum PyVal Fmt FixedFormat.
 From Gen Require Import GenTables GenMulgrid.
-From P Require Import Flt Lines MulgridIO.
+From P Require Import Flt Lines MulgridIO RoundTrip.
 Import ListNotations.
 
-Theorem split_written_lines : forall ls, forallb line_ok ls = true -> split_lines (file_of_lines ls) = map add_nl ls.
-Proof. exact split_lines_file. Qed.
+(** a written file splits back into its lines (text mode, universal newlines) *)
+Theorem split_written_lines : forall ls, forallb line_ok ls = true -> split_lines (unl (file_of_lines ls)) = map add_nl ls.
+Proof. intros ls H. rewrite unl_file by exact H. apply split_lines_file. exact H. Qed.
 Print Assumptions split_written_lines.
+
+(** one record: if every field passes its read-back check, the writer returns a line that
+    parses back to the expected values whatever follows it on the line *)
+Theorem record_round_trip : forall specs vals, fields_ok specs vals = true ->
+  exists l, write_values specs vals = Ok l /\ line_ok l = true /\
+            forall rest, parse_string default_rf specs (l ++ rest)%list = expected_list specs vals.
+Proof. exact record_parses_back. Qed.
+Print Assumptions record_round_trip.
+
+(** the writer succeeds on every well-formed geometry *)
+Theorem mulgrid_write_total : forall g, wf g = true ->
+  str_eqb (h_type (canon_header (g_hdr g))) (s2l supported_type) = true -> exists b, write g = Ok b.
+Proof. exact wf_write_ok. Qed.
+Print Assumptions mulgrid_write_total.
+
+(** THE round trip, for every well-formed geometry (any number of nodes, columns,
+    connections, layers, surfaces, wells; any header options) *)
+Theorem mulgrid_read_write : forall g b, wf g = true -> write g = Ok b -> read b = Ok (canon g).
+Proof. exact read_write_roundtrip. Qed.
+Print Assumptions mulgrid_read_write.
